@@ -174,7 +174,7 @@ int main(int argc, char** argv) {
   // directed: every class is the focus once (quick) / with every thread count (thorough)
   S.push_back(vh::Section{"focus", ncls, 4 * ncls, false, [ncls](vh::Ctx& c, uint64_t i) {
     trial(c, i, Ts[(i + i / 4 + i / 16 + i / ncls + c.seed) % 4], (int)(i % ncls)); }, 1800});
-  S.push_back(vh::Section{"trial", 60, 1500, true, [](vh::Ctx& c, uint64_t i) { trial(c, i, Ts[(i + i / 4 + i / 16) % 4], -1); }, 1800});
+  S.push_back(vh::Section{"trial", 90, 1500, true, [](vh::Ctx& c, uint64_t i) { trial(c, i, Ts[(i + i / 4 + i / 16) % 4], -1); }, 1800});
   int rc = vh::run_sections(argc, argv, S);
   return rc;
 }
